@@ -1070,7 +1070,7 @@ def unstorable(v):
         float('inf'), float('-inf'))))
 
 
-def to_xlsx(spec, path, stored, overrides=None):
+def to_xlsx(spec, path, stored, overrides=None, compress=True):
     """write a real .xlsx whose formula cells carry `stored[addr]` as results"""
     # (nan and the infinities cannot be written: such a cell carries no stored result)
     stored = {a: (None if isinstance(v, float) and unstorable(v) else v)
@@ -1090,7 +1090,7 @@ def to_xlsx(spec, path, stored, overrides=None):
         else:
             by_sheet[sheet][coord] = _cell_xml(coord, None, stored.get(a), has_formula=True)
 
-    z = zipfile.ZipFile(path, 'w', zipfile.ZIP_DEFLATED)
+    z = zipfile.ZipFile(path, 'w', zipfile.ZIP_DEFLATED if compress else zipfile.ZIP_STORED)
     n = len(spec['sheets'])
     ct = ['<?xml version="1.0" encoding="UTF-8" standalone="yes"?>'
           '<Types xmlns="http://schemas.openxmlformats.org/package/2006/content-types">'
